@@ -637,7 +637,7 @@ Definition is_seg (c : cmd) : bool :=
 
 Lemma emit_segs st p st' c : emit st p = Some (st', c) -> forallb is_seg c = true.
 Proof.
-  unfold emit. destruct st; repeat (destruct (is_quad p) || destruct (is_cubic p));
+  unfold emit. destruct st; destruct (is_quad p); destruct (is_cubic p);
   intros H; inversion H; subst; reflexivity.
 Qed.
 
@@ -656,12 +656,12 @@ Proof.
   unfold finish. intros H.
   destruct st.
   - inversion H; subst. exists []. split; reflexivity.
-  - destruct (emit _ _) as [[st' c]|] eqn:E; [|discriminate]. inversion H; subst.
-    exists c. split; [reflexivity|]. eapply emit_segs; eauto.
-  - destruct (emit _ _) as [[st' c]|] eqn:E; [|discriminate]. inversion H; subst.
-    exists c. split; [reflexivity|]. eapply emit_segs; eauto.
-  - destruct (emit _ _) as [[st' c]|] eqn:E; [|discriminate]. inversion H; subst.
-    exists c. split; [reflexivity|]. eapply emit_segs; eauto.
+  - destruct (emit _ _) as [[st' cs]|] eqn:E; [|discriminate]. inversion H; subst.
+    exists cs. split; [reflexivity|]. eapply emit_segs; eauto.
+  - destruct (emit _ _) as [[st' cs]|] eqn:E; [|discriminate]. inversion H; subst.
+    exists cs. split; [reflexivity|]. eapply emit_segs; eauto.
+  - destruct (emit _ _) as [[st' cs]|] eqn:E; [|discriminate]. inversion H; subst.
+    exists cs. split; [reflexivity|]. eapply emit_segs; eauto.
 Qed.
 
 Lemma wf_go_segs segs : forall rest, forallb is_seg segs = true ->
